@@ -6,6 +6,7 @@ import (
 	"net/url"
 	"os"
 	"regexp"
+	"strings"
 )
 
 func init() { runners["C09"] = runC09 }
@@ -319,9 +320,12 @@ func runEscaperProperty(o *Options, prop string, forms []EscForm, oracle func(Es
 // pruneNoFailing drops no-failing-input-found entries when the same run has a failing input
 // (the failing input is the better replay for the same broken correspondence).
 func (r *Result) pruneNoFailing() {
+	// failing inputs that are recorded findings do not explain a broken proof or correspondence:
+	// only an unrecorded failing input lets the no-failing-input-found entries go
+	known := knownFindingClasses()
 	has := false
 	for _, v := range r.Violations {
-		if v.Kind == "failing-input" {
+		if v.Kind == "failing-input" && !known[v.Class] {
 			has = true
 		}
 	}
@@ -335,6 +339,28 @@ func (r *Result) pruneNoFailing() {
 		}
 	}
 	r.Violations = out
+}
+
+var verifRoot = "/verif"
+
+// knownFindingClasses reads the class guards of the committed known-findings file.
+func knownFindingClasses() map[string]bool {
+	m := map[string]bool{}
+	b, err := os.ReadFile(verifRoot + "/known_findings.txt")
+	if err != nil {
+		return m
+	}
+	for _, l := range strings.Split(string(b), "\n") {
+		if !strings.HasPrefix(l, "finding:") {
+			continue
+		}
+		for _, f := range strings.Fields(l) {
+			if strings.HasPrefix(f, "class=") {
+				m[strings.TrimPrefix(f, "class=")] = true
+			}
+		}
+	}
+	return m
 }
 
 func lenBucket(n int) string {
